@@ -127,7 +127,7 @@ def conc_scripts(c, lib, count, sid0):
     # steady streams: arrivals faster than the timeout for longer than timeout + slack; the size trigger is
     # never reached, so only the timer can emit ("no later than the timeout after the first of them arrived")
     for k in range(max(1, count // 400)):
-        one = [[[[1]]]]
+        one = [[[1]]]
         out.append(dict(sid=sid0 + len(out), signal=SIGNALS[(c.seed + k) % 3], mode="conc",
                         conf=dict(size=1000, max=0, timeout_ms=100, keyed=False, limit=0), pendmax=0,
                         producers=[[dict(shape=one, md="a", gap_us=20000) for _ in range(130)]], shutdown_after=-1,
@@ -179,6 +179,7 @@ def run_and_validate(c, binp, scripts, label, par=8):
 def report(c, scripts, results, viol, ctxd, trace_path):
     by_sid = {s["sid"]: s for s in scripts}
     seen = set()
+    lines = None
     for sid, vs in sorted(viol.items()):
         s = by_sid[sid]
         clauses = sorted({v["clause"] for v in vs})
@@ -198,6 +199,14 @@ def report(c, scripts, results, viol, ctxd, trace_path):
             seen.add(key)
             if len(c.violations) >= 12:
                 continue
+            if cl == "SizeTrigger":
+                # only quiescence waits that were given the full 5 s count (see settleBound in the driver)
+                if lines is None:
+                    lines = open(trace_path).read().splitlines()
+                full = [x for x in vs if x["clause"] == cl and json.loads(lines[x["line"] - 1]).get("bound", 0) >= 5000]
+                if not full:
+                    continue
+                v = full[0]
             c.violation(what, replay_obj=dict(script=s, clause=cl, line=v["line"]), signature=sig)
 
 
@@ -261,7 +270,7 @@ def run(c):
                 if r["emits"] >= 2:
                     nontrivial += 1
                 if s["mode"] == "seq":
-                    if r["settle_timeouts"] and s["sid"] not in viol:
+                    if r["settle_timeouts"] and not c.violations and s["sid"] not in viol:
                         raise vlib.Inconclusive("quiescence wait timed out but the monitor saw no violation (script %d)" % s["sid"])
                     if r.get("strict") and s["sid"] not in viol:
                         drift += 1
